@@ -1,8 +1,9 @@
+import Chartparse.Proofs.SectionLaws
 import Chartparse.Proofs.Scanner
 import Chartparse.Gen.Tables
 /-! Property theorems of C06 (statements only; helper lemmas live in `Proofs/`). -/
 namespace Chartparse.Props.C06
-open Chartparse
+open Chartparse Chartparse.Tempo
 
 /-- C06, newline independence: LF- and CRLF-terminated renderings split into the same lines -/
 theorem C06_newline_lf :
@@ -75,6 +76,38 @@ theorem C06_required (secs : Sections) (want : Option (List (Nat × Nat))) (tag 
     exact hmiss s hs (by simpa using he)
   rw [this]
   rfl
+
+theorem route_cons :
+    ∀ (res : Int) (evs : List BpmEv) (sel : Nat × Nat → Bool) (s : Str × List Str) (rest : Sections) (r : RouteOut),
+    routeTracks res evs sel (s :: rest) = .ok r ↔
+      ∃ d rr, stepData res evs sel s = some d ∧ routeTracks res evs sel rest = .ok rr ∧ r = prepend d rr :=
+  @Chartparse.route_cons
+
+/-- **C06 (section order, routing)**: for any permutation of the sections, a successful routing stays successful with
+    the same tracks (as a multiset), the same number of unparsable lines and the same unhandled reports (as a multiset) -/
+theorem C06_perm :
+    ∀ (res : Int) (evs : List BpmEv) (sel : Nat × Nat → Bool) {secs secs' : Sections} (hp : secs.Perm secs'),
+    ∀ r : RouteOut, routeTracks res evs sel secs = .ok r →
+      ∃ r' : RouteOut, routeTracks res evs sel secs' = .ok r' ∧ RouteEq r r' :=
+  @Chartparse.route_perm
+
+/-- **C06 (unknown sections, routing)**: inserting a section whose tag is neither a known header nor a required tag
+    changes nothing but the reports: same tracks, same unparsable count, one more unhandled report -/
+theorem C06_unknown :
+    ∀ (res : Int) (evs : List BpmEv) (sel : Nat × Nat → Bool) (pre post : Sections) (tag : Str) (body : List Str)
+    (hu : routeOf tag = none) (hreq : Gen.requiredTags.contains tag = false),
+    ∀ r : RouteOut, routeTracks res evs sel (pre ++ post) = .ok r →
+      ∃ r' : RouteOut, routeTracks res evs sel (pre ++ (tag, body) :: post) = .ok r' ∧ r'.1 = r.1 ∧ r'.2.1 = r.2.1 ∧
+        r'.2.2.Perm (tag :: r.2.2) :=
+  @Chartparse.route_unknown
+
+/-- **C06 (unknown sections, metadata / sync / events)**: the selection-independent part of the parse is blind to a
+    section whose tag is not a required tag -/
+theorem C06_unknown_shared :
+    ∀ (pre post : Sections) (tag : Str) (body : List Str)
+    (hreq : ∀ t ∈ Gen.requiredTags, (tag == t) = false),
+    parseShared (pre ++ (tag, body) :: post) = parseShared (pre ++ post) :=
+  @Chartparse.shared_unknown
 
 /-- non-vacuity: a two-section file, CRLF, framed as written -/
 example : (scanSections (splitlines (cp "[Song]\r\n{\r\n  Resolution = 192\r\n}\r\n[Events]\r\n{\r\n}\r\n"))).toOption =
